@@ -49,6 +49,10 @@ def plan(tier, seed):
         for c in CUTS:
             cases.append({'kind': 'cut', 'proc': p, 'cut': c, 'seed': seed * 1000003 + len(cases),
                           'max_points': 150 if tier == 'quick' else 10 ** 6})
+    for tr in ('le', 'bredr'):
+        for how in ('disc-initiator', 'disc-responder', 'lost'):
+            for k in range(2):
+                cases.append({'kind': 'stale', 'transport': tr, 'how': how, 'seed': seed * 1000003 + 900 + len(cases)})
     return cases
 
 
@@ -349,7 +353,66 @@ async def scenario(case, r, proc, cut, cut_at):
     return n
 
 
+async def stale_object(case, r: R):
+    """A connection is closed, a new one is made (the virtual controller reuses the lowest free
+    handle), and then something starts waiting on the OLD Connection object: it must be released,
+    the disconnection it would wait for has already happened."""
+    from bumble import l2cap
+    from vlib import rig as vrig
+    rng = random.Random(case['seed'])
+    vrig.seed_entropy(case['seed'])
+    classic = case['transport'] == 'bredr'
+    rg = vrig.Rig(2, seed=case['seed'], max_delay=rng.choice([0, 1]), classic=classic)
+    await rg.power_on()
+    rg.devices[1].create_l2cap_server(spec=l2cap.ClassicChannelSpec(psm=0x1001), handler=lambda ch: None) if classic else None
+    old0, old1 = await (rg.connect_classic(0, 1) if classic else rg.connect_le(0, 1))
+    await rg.quiesce()
+    how = case['how']
+    if how.startswith('lost'):
+        side = 0
+        rg.cut_transport(side)
+        rg.hosts[side].on_transport_lost()
+        olds = [(0, old0)]
+    else:
+        await vloop.vwait((old0 if how == 'disc-initiator' else old1).disconnect())
+        olds = [(0, old0), (1, old1)]
+    await rg.quiesce()
+    new = None
+    if not how.startswith('lost'):
+        new = await (rg.connect_classic(0, 1) if classic else rg.connect_le(0, 1))
+        await rg.quiesce()
+        r.ev('stale_handle_reused' if new[0].handle == old0.handle else 'stale_handle_not_reused')
+    loop = asyncio.get_running_loop()
+    for dev, old in olds:
+        r.ev('stale_object_waiters')
+        r.ev('oracle_evals')
+        fut = loop.create_future()
+        try:
+            await vloop.vwait(old.cancel_on_disconnection(fut))
+            outcome = 'returned'
+        except vloop.Hang:
+            outcome = 'hang'
+        except asyncio.CancelledError:
+            outcome = 'cancelled'
+        except Exception as e:
+            outcome = type(e).__name__
+        if outcome == 'hang':
+            r.bad(f'waiter/hang/stale-connection-object/{how}' + ('/handle-reused' if new and new[0].handle == old0.handle else ''),
+                  f'a waiter registered with cancel_on_disconnection on the closed connection of dev{dev} '
+                  f'(handle {old.handle:#x}) is still pending after {vloop.T_V} virtual s')
+            fut.cancel()
+    r.ev('cut_runs')
+    r.ev('table_checks')
+    r.ev('leftover_checks')
+    r.ev('cuts_before_completion')
+    r.sig('stale', case['transport'], how)
+    r.evals()
+    r.sample = {'kind': 'stale-object', 'transport': case['transport'], 'how': how}
+
+
 def run_case(case, r: R):
+    if case.get('kind') == 'stale':
+        return stale_object(case, r)
     proc, cut = case['proc'], case['cut']
     try:
         n, _ = vloop.run(scenario(case, R({}), proc, cut, None))
